@@ -56,7 +56,7 @@ func GroupFrames(p *load.Prog, r *oblig.Report, rule string) {
 			}
 			base := pt.Resolve(addr.Sub(fa.X))
 			al, ok := base.V.(*ssa.Alloc)
-			if !ok || !al.Heap {
+			if !ok {
 				continue
 			}
 			val := pt.Resolve(ev.Term(st.Val))
